@@ -18,27 +18,28 @@ theorem bvBinTable_ok : ∀ e ∈ bvBinTable,
   decide +kernel
 
 section
-variable (sp : Spell) (hsp : SpellStd sp) (env : SEnv) (scope : List Sym) (hsc : ScopeOK scope)
+variable (sp : Spell) (hsp : SpellStd sp) (env : SEnv) (sc : List Binding) (hsc : ThFree sc) (srt : Bool)
+  (toS : Term → Sexp) (scope0 : List Sym)
 include hsp hsc
 
 theorem reads_bvbin_aux (op : Op) (key name : String) (he : (op, key, name) ∈ bvBinTable)
     (w : Nat) (a b : Term) (ha : tyD a = .bv w) (hb : tyD b = .bv w)
-    (hsexp : ∀ as, nodeSexp sp true op (.ints [w]) [a, b] as = .list (.atom (sp (walkKey op)) :: as))
-    (hargs : ∀ x ∈ [a, b], Reads sp env scope x) (hty : (Term.node op [a, b] (.ints [w])).typeOf = some (.bv w)) :
-    Reads sp env scope (.node op [a, b] (.ints [w])) := by
+    (hsexp : ∀ as, nodeSexp sp srt op (.ints [w]) [a, b] as = .list (.atom (sp (walkKey op)) :: as))
+    (hargs : ∀ x ∈ [a, b], Reads env sc srt toS x) (hty : (Term.node op [a, b] (.ints [w])).typeOf = some (.bv w)) :
+    NodeReads sp env sc srt toS op [a, b] (.ints [w]) := by
   obtain ⟨hk, hs, ht, hb', hna⟩ := bvBinTable_ok _ he
   simp only at hk hs ht hb' hna
-  apply reads_simple sp env scope hsc op (.ints [w]) [a, b] name ht
+  apply reads_simple sp env sc hsc srt toS op (.ints [w]) [a, b] name ht
     (fun as => by rw [hsexp, hk, spell sp hsp key name hs])
-    (unfoldAV_plain _ _ _ hna) hargs (by simp) _ hty
+    (unfoldAV_plain srt _ _ _ hna) hargs (by simp) _ hty
   simp only [List.map, U, ha, hb]; exact ap_bvbin name op hb' _ _ w
 
 theorem reads_bvbin (op : Op) (hop : ∃ key name, (op, key, name) ∈ bvBinTable) (p : Payload) (args : List Term) (τ : Ty)
-    (hargs : ∀ a ∈ args, Reads sp env scope a) (hty : (Term.node op args p).typeOf = some τ)
-    (hS : stdTy op p (args.map tyD) = some τ) : Reads sp env scope (.node op args p) := by
+    (hargs : ∀ a ∈ args, Reads env sc srt toS a) (hty : (Term.node op args p).typeOf = some τ)
+    (hS : stdTy op p (args.map tyD) = some τ) : NodeReads sp env sc srt toS op args p := by
   obtain ⟨key, name, he⟩ := hop
   have key2 : ∃ w a b, p = .ints [w] ∧ args = [a, b] ∧ tyD a = .bv w ∧ tyD b = .bv w ∧ τ = .bv w ∧
-      (∀ as, nodeSexp sp true op (.ints [w]) [a, b] as = .list (.atom (sp (walkKey op)) :: as)) := by
+      (∀ as, nodeSexp sp srt op (.ints [w]) [a, b] as = .list (.atom (sp (walkKey op)) :: as)) := by
     simp only [bvBinTable, List.mem_cons, Prod.mk.injEq, List.not_mem_nil, or_false] at he
     rcases he with ⟨rfl, _⟩ | ⟨rfl, _⟩ | ⟨rfl, _⟩ | ⟨rfl, _⟩ | ⟨rfl, _⟩ | ⟨rfl, _⟩ | ⟨rfl, _⟩ | ⟨rfl, _⟩ | ⟨rfl, _⟩
       | ⟨rfl, _⟩ | ⟨rfl, _⟩ | ⟨rfl, _⟩ | ⟨rfl, _⟩ <;>
@@ -52,11 +53,11 @@ theorem reads_bvbin (op : Op) (hop : ∃ key name, (op, key, name) ∈ bvBinTabl
         exact ⟨w, a, b, rfl, rfl, by rw [ha, hc.1], by rw [hb, hc.2], hS.symm, fun as => by simp [nodeSexp]⟩
       · simp at hS
   obtain ⟨w, a, b, rfl, rfl, ha, hb, rfl, hsexp⟩ := key2
-  exact reads_bvbin_aux sp hsp env scope hsc op key name he w a b ha hb hsexp hargs hty
+  exact reads_bvbin_aux sp hsp env sc hsc srt toS op key name he w a b ha hb hsexp hargs hty
 
 theorem reads_bvun (op : Op) (hop : op = .bvNot ∨ op = .bvNeg) (p : Payload) (args : List Term) (τ : Ty)
-    (hargs : ∀ a ∈ args, Reads sp env scope a) (hty : (Term.node op args p).typeOf = some τ)
-    (hS : stdTy op p (args.map tyD) = some τ) : Reads sp env scope (.node op args p) := by
+    (hargs : ∀ a ∈ args, Reads env sc srt toS a) (hty : (Term.node op args p).typeOf = some τ)
+    (hS : stdTy op p (args.map tyD) = some τ) : NodeReads sp env sc srt toS op args p := by
   rcases hop with rfl | rfl
   · simp only [stdTy] at hS
     split at hS
@@ -66,9 +67,9 @@ theorem reads_bvun (op : Op) (hop : op = .bvNot ∨ op = .bvNeg) (p : Payload) (
       simp only [beq_iff_eq] at hc
       obtain ⟨a, rfl, ha⟩ := map_eq_one hts
       subst hS
-      apply reads_simple sp env scope hsc .bvNot (.ints [w]) [a] "bvnot" (by decide)
+      apply reads_simple sp env sc hsc srt toS .bvNot (.ints [w]) [a] "bvnot" (by decide)
         (fun as => by simp [nodeSexp, walkKey, spell sp hsp "walk_bv_not" "bvnot" (by decide)])
-        (unfoldAV_plain _ _ _ (by decide)) hargs (by simp) _ hty
+        (unfoldAV_plain srt _ _ _ (by decide)) hargs (by simp) _ hty
       simp only [List.map, U, ha, hc]; exact ap_bvnot _ _
     · simp at hS
   · simp only [stdTy] at hS
@@ -79,15 +80,15 @@ theorem reads_bvun (op : Op) (hop : op = .bvNot ∨ op = .bvNeg) (p : Payload) (
       simp only [beq_iff_eq] at hc
       obtain ⟨a, rfl, ha⟩ := map_eq_one hts
       subst hS
-      apply reads_simple sp env scope hsc .bvNeg (.ints [w]) [a] "bvneg" (by decide)
+      apply reads_simple sp env sc hsc srt toS .bvNeg (.ints [w]) [a] "bvneg" (by decide)
         (fun as => by simp [nodeSexp, walkKey, spell sp hsp "walk_bv_neg" "bvneg" (by decide)])
-        (unfoldAV_plain _ _ _ (by decide)) hargs (by simp) _ hty
+        (unfoldAV_plain srt _ _ _ (by decide)) hargs (by simp) _ hty
       simp only [List.map, U, ha, hc]; exact ap_bvneg _ _
     · simp at hS
 
 theorem reads_concat (p : Payload) (args : List Term) (τ : Ty)
-    (hargs : ∀ a ∈ args, Reads sp env scope a) (hty : (Term.node .bvConcat args p).typeOf = some τ)
-    (hS : stdTy .bvConcat p (args.map tyD) = some τ) : Reads sp env scope (.node .bvConcat args p) := by
+    (hargs : ∀ a ∈ args, Reads env sc srt toS a) (hty : (Term.node .bvConcat args p).typeOf = some τ)
+    (hS : stdTy .bvConcat p (args.map tyD) = some τ) : NodeReads sp env sc srt toS .bvConcat args p := by
   simp only [stdTy] at hS
   split at hS
   · next ts w x y hts =>
@@ -97,15 +98,15 @@ theorem reads_concat (p : Payload) (args : List Term) (τ : Ty)
     obtain ⟨a, b, rfl, ha, hb⟩ := map_eq_two hts
     subst hS
     subst hc
-    apply reads_simple sp env scope hsc .bvConcat (.ints [x + y]) [a, b] "concat" (by decide)
+    apply reads_simple sp env sc hsc srt toS .bvConcat (.ints [x + y]) [a, b] "concat" (by decide)
       (fun as => by simp [nodeSexp, walkKey, spell sp hsp "walk_bv_concat" "concat" (by decide)])
-      (unfoldAV_plain _ _ _ (by decide)) hargs (by simp) _ hty
+      (unfoldAV_plain srt _ _ _ (by decide)) hargs (by simp) _ hty
     simp only [List.map, U, ha, hb]; exact ap_concat _ _ _ _
   · simp at hS
 
 theorem reads_comp (p : Payload) (args : List Term) (τ : Ty)
-    (hargs : ∀ a ∈ args, Reads sp env scope a) (hty : (Term.node .bvComp args p).typeOf = some τ)
-    (hS : stdTy .bvComp p (args.map tyD) = some τ) : Reads sp env scope (.node .bvComp args p) := by
+    (hargs : ∀ a ∈ args, Reads env sc srt toS a) (hty : (Term.node .bvComp args p).typeOf = some τ)
+    (hS : stdTy .bvComp p (args.map tyD) = some τ) : NodeReads sp env sc srt toS .bvComp args p := by
   simp only [stdTy] at hS
   split at hS
   · next ts x y hts =>
@@ -115,9 +116,9 @@ theorem reads_comp (p : Payload) (args : List Term) (τ : Ty)
     obtain ⟨a, b, rfl, ha, hb⟩ := map_eq_two hts
     subst hS
     subst hc
-    apply reads_simple sp env scope hsc .bvComp (.ints [1]) [a, b] "bvcomp" (by decide)
+    apply reads_simple sp env sc hsc srt toS .bvComp (.ints [1]) [a, b] "bvcomp" (by decide)
       (fun as => by simp [nodeSexp, walkKey, spell sp hsp "walk_bv_comp" "bvcomp" (by decide)])
-      (unfoldAV_plain _ _ _ (by decide)) hargs (by simp) _ hty
+      (unfoldAV_plain srt _ _ _ (by decide)) hargs (by simp) _ hty
     simp only [List.map, U, ha, hb]; exact ap_bvcomp _ _ _
   · simp at hS
 
@@ -132,11 +133,11 @@ theorem bvRelTable_ok : ∀ e ∈ bvRelTable,
   decide +kernel
 
 theorem reads_bvrel (op : Op) (hop : ∃ key name, (op, key, name) ∈ bvRelTable) (p : Payload) (args : List Term) (τ : Ty)
-    (hargs : ∀ a ∈ args, Reads sp env scope a) (hty : (Term.node op args p).typeOf = some τ)
-    (hS : stdTy op p (args.map tyD) = some τ) : Reads sp env scope (.node op args p) := by
+    (hargs : ∀ a ∈ args, Reads env sc srt toS a) (hty : (Term.node op args p).typeOf = some τ)
+    (hS : stdTy op p (args.map tyD) = some τ) : NodeReads sp env sc srt toS op args p := by
   obtain ⟨key, name, he⟩ := hop
   have key2 : ∃ w a b, p = .none ∧ args = [a, b] ∧ tyD a = .bv w ∧ tyD b = .bv w ∧ τ = .bool ∧
-      (∀ as, nodeSexp sp true op .none [a, b] as = .list (.atom (sp (walkKey op)) :: as)) := by
+      (∀ as, nodeSexp sp srt op .none [a, b] as = .list (.atom (sp (walkKey op)) :: as)) := by
     simp only [bvRelTable, List.mem_cons, Prod.mk.injEq, List.not_mem_nil, or_false] at he
     rcases he with ⟨rfl, _⟩ | ⟨rfl, _⟩ | ⟨rfl, _⟩ | ⟨rfl, _⟩ <;>
     · simp only [stdTy] at hS
@@ -151,29 +152,29 @@ theorem reads_bvrel (op : Op) (hop : ∃ key name, (op, key, name) ∈ bvRelTabl
   obtain ⟨w, a, b, rfl, rfl, ha, hb, rfl, hsexp⟩ := key2
   obtain ⟨hk, hs, ht, hb', hna⟩ := bvRelTable_ok _ he
   simp only at hk hs ht hb' hna
-  apply reads_simple sp env scope hsc op .none [a, b] name ht
+  apply reads_simple sp env sc hsc srt toS op .none [a, b] name ht
     (fun as => by rw [hsexp, hk, spell sp hsp key name hs])
-    (unfoldAV_plain _ _ _ hna) hargs (by simp) _ hty
+    (unfoldAV_plain srt _ _ _ hna) hargs (by simp) _ hty
   simp only [List.map, U, ha, hb]; exact ap_bvrel name op hb' _ _ w
 
 theorem reads_bv2nat (p : Payload) (args : List Term) (τ : Ty)
-    (hargs : ∀ a ∈ args, Reads sp env scope a) (hty : (Term.node .bvToNatural args p).typeOf = some τ)
-    (hS : stdTy .bvToNatural p (args.map tyD) = some τ) : Reads sp env scope (.node .bvToNatural args p) := by
+    (hargs : ∀ a ∈ args, Reads env sc srt toS a) (hty : (Term.node .bvToNatural args p).typeOf = some τ)
+    (hS : stdTy .bvToNatural p (args.map tyD) = some τ) : NodeReads sp env sc srt toS .bvToNatural args p := by
   simp only [stdTy] at hS
   split at hS
   · next ts w hts =>
     simp at hS
     obtain ⟨a, rfl, ha⟩ := map_eq_one hts
     subst hS
-    apply reads_simple sp env scope hsc .bvToNatural .none [a] "bv2nat" (by decide)
+    apply reads_simple sp env sc hsc srt toS .bvToNatural .none [a] "bv2nat" (by decide)
       (fun as => by simp [nodeSexp, walkKey, spell sp hsp "walk_bv_tonatural" "bv2nat" (by decide)])
-      (unfoldAV_plain _ _ _ (by decide)) hargs (by simp) _ hty
+      (unfoldAV_plain srt _ _ _ (by decide)) hargs (by simp) _ hty
     simp only [List.map, U, ha]; exact ap_bv2nat _ _
   · simp at hS
 
 theorem reads_select (p : Payload) (args : List Term) (τ : Ty)
-    (hargs : ∀ a ∈ args, Reads sp env scope a) (hty : (Term.node .arraySelect args p).typeOf = some τ)
-    (hS : stdTy .arraySelect p (args.map tyD) = some τ) : Reads sp env scope (.node .arraySelect args p) := by
+    (hargs : ∀ a ∈ args, Reads env sc srt toS a) (hty : (Term.node .arraySelect args p).typeOf = some τ)
+    (hS : stdTy .arraySelect p (args.map tyD) = some τ) : NodeReads sp env sc srt toS .arraySelect args p := by
   simp only [stdTy] at hS
   split at hS
   · next ts i e j hts =>
@@ -183,15 +184,15 @@ theorem reads_select (p : Payload) (args : List Term) (τ : Ty)
     obtain ⟨a, b, rfl, ha, hb⟩ := map_eq_two hts
     subst hS
     subst hc
-    apply reads_simple sp env scope hsc .arraySelect .none [a, b] "select" (by decide)
+    apply reads_simple sp env sc hsc srt toS .arraySelect .none [a, b] "select" (by decide)
       (fun as => by simp [nodeSexp, walkKey, spell sp hsp "walk_array_select" "select" (by decide)])
-      (unfoldAV_plain _ _ _ (by decide)) hargs (by simp) _ hty
+      (unfoldAV_plain srt _ _ _ (by decide)) hargs (by simp) _ hty
     simp only [List.map, U, ha, hb]; exact ap_select _ _ _ _
   · simp at hS
 
 theorem reads_store (p : Payload) (args : List Term) (τ : Ty)
-    (hargs : ∀ a ∈ args, Reads sp env scope a) (hty : (Term.node .arrayStore args p).typeOf = some τ)
-    (hS : stdTy .arrayStore p (args.map tyD) = some τ) : Reads sp env scope (.node .arrayStore args p) := by
+    (hargs : ∀ a ∈ args, Reads env sc srt toS a) (hty : (Term.node .arrayStore args p).typeOf = some τ)
+    (hS : stdTy .arrayStore p (args.map tyD) = some τ) : NodeReads sp env sc srt toS .arrayStore args p := by
   simp only [stdTy] at hS
   split at hS
   · next ts i e j v hts =>
@@ -201,9 +202,9 @@ theorem reads_store (p : Payload) (args : List Term) (τ : Ty)
     obtain ⟨a, b, c, rfl, ha, hb, hc'⟩ := map_eq_three hts
     subst hS
     obtain ⟨rfl, rfl⟩ := hc
-    apply reads_simple sp env scope hsc .arrayStore .none [a, b, c] "store" (by decide)
+    apply reads_simple sp env sc hsc srt toS .arrayStore .none [a, b, c] "store" (by decide)
       (fun as => by simp [nodeSexp, walkKey, spell sp hsp "walk_array_store" "store" (by decide)])
-      (unfoldAV_plain _ _ _ (by decide)) hargs (by simp) _ hty
+      (unfoldAV_plain srt _ _ _ (by decide)) hargs (by simp) _ hty
     simp only [List.map, U, ha, hb, hc']; exact ap_store _ _ _ _ _
   · simp at hS
 
